@@ -253,6 +253,10 @@ def _str(sx, args, kw, st, node):
         if e.msg is not None and isinstance(e.msg, Val) and isinstance(e.msg.ty, V._Str):
             return ok(st, e.msg)
         return ok(st, sx.fresh(V.Str, "excmsg", st))
+    if isinstance(v, Conc) and not isinstance(v.v, (int, str, float, bool, bytes, type(None), tuple)):
+        return ok(st, sx.fresh(V.Str, "objstr", st))
+    if isinstance(v, Ref) and isinstance(st.heap.get(v.cell), dict):
+        return ok(st, sx.fresh(V.Str, "objstr", st))
     v = sx.deref(sx.lift(v) if isinstance(v, Conc) else v, st)
     t = v.ty
     if isinstance(t, V._Str):
@@ -516,7 +520,24 @@ def _bytes_ctor(sx, args, kw, st, node):
     raise Unsupported("bytes() of %r" % (v.ty,), node)
 
 
+def _dict_ctor(sx, args, kw, st, node):
+    if args or kw:
+        raise Unsupported("dict(...) with arguments", node)
+    return ok(st, Ref(V.Dict(V.Str, V.Int), st.alloc(("emptydict",))))
+
+
+def _float(sx, args, kw, st, node):
+    v = sx.lift(args[0]) if isinstance(args[0], Conc) else args[0]
+    if isinstance(v.ty, V._Real):
+        return ok(st, v)
+    if isinstance(v.ty, (V._Int, V._Bool)):
+        return ok(st, Val(V.Real, z3.ToReal(sx.num(v))))
+    raise Unsupported("float() of %r" % (v.ty,), node)
+
+
 BUILTIN_FUNCS = {
+    "dict": _dict_ctor,
+    "float": _float,
     "len": _len,
     "min": _minmax(False),
     "max": _minmax(True),
@@ -626,7 +647,15 @@ def call_method(sx, obj, attr, args, kwargs, st, node):
     if isinstance(t, V.Set) and attr in ("intersection", "union", "issubset"):
         other = sx.deref(args[0], st)
         if isinstance(other.ty, V.Opt):
-            raise Unsupported("set op with optional", node)
+            # set.intersection(None) raises TypeError
+            ot = other.ty
+            outs = []
+            isn = ot.is_none(other.term)
+            if sx.feasible(st, isn):
+                outs.append(R(st.fork().assume(isn), None, Exc("TypeError")))
+            st.assume(z3.Not(isn))
+            outs.extend(call_method(sx, obj, attr, [Val(ot.inner, ot.get(other.term))], kwargs, st, node))
+            return outs
         if attr == "issubset":
             x = z3.Const(fresh_name("ss"), t.elem.sort())
             return ok(st, Val(V.Bool, z3.ForAll([x], z3.Implies(z3.Select(obj.term, x), z3.Select(other.term, x)))))
@@ -732,7 +761,8 @@ def mutable_method(sx, ref, attr, args, kwargs, st, node):
             if isinstance(other, Val) and other.ty == t:
                 x = z3.Const(fresh_name("siu"), t.elem.sort())
                 keep = z3.Select(other.term, x) if attr == "intersection_update" else z3.Not(z3.Select(other.term, x))
-                st.setcell(ref.cell, Val(t, z3.Lambda([x], z3.And(z3.Select(c.term, x), keep))))
+                st.setcell(ref.cell, Val(t, z3.Lambda([x], z3.And(z3.Select(c.term, x), keep)),
+                                         {"ne": z3.Exists([x], z3.And(z3.Select(c.term, x), keep))}))
                 return ok(st, NONE)
             raise Unsupported("set.%s with %r" % (attr, other), node)
         if attr == "update":
@@ -740,10 +770,8 @@ def mutable_method(sx, ref, attr, args, kwargs, st, node):
             if isinstance(other, Val) and other.ty == t:
                 x = z3.Const(fresh_name("su"), t.elem.sort())
                 newt = z3.Lambda([x], z3.Or(z3.Select(c.term, x), z3.Select(other.term, x)))
-                if not isinstance(t.elem, V._Bool):
-                    ne = sx.set_ne_fun(t)
-                    st.assume(ne(newt) == z3.Or(sx.set_nonempty(c, st), sx.set_nonempty(other, st)))
-                st.setcell(ref.cell, Val(t, newt))
+                aux = None if isinstance(t.elem, V._Bool) else {"ne": z3.Or(sx.set_nonempty(c, st), sx.set_nonempty(other, st))}
+                st.setcell(ref.cell, Val(t, newt, aux))
                 return ok(st, NONE)
             kind, payload = iter_elems(sx, args[0], st, node)[:2]
             if kind == "list" and payload.ty.elem == t.elem:
@@ -751,9 +779,8 @@ def mutable_method(sx, ref, attr, args, kwargs, st, node):
                 x = z3.Const(fresh_name("su"), t.elem.sort())
                 i = z3.Int(fresh_name("sui"))
                 newt = z3.Lambda([x], z3.Or(z3.Select(c.term, x), z3.Exists([i], z3.And(i >= 0, i < lt.n(payload.term), lt.at(payload.term, i) == x))))
-                if not isinstance(t.elem, V._Bool):
-                    st.assume(sx.set_ne_fun(t)(newt) == z3.Or(sx.set_nonempty(c, st), lt.n(payload.term) > 0))
-                st.setcell(ref.cell, Val(t, newt))
+                aux = None if isinstance(t.elem, V._Bool) else {"ne": z3.Or(sx.set_nonempty(c, st), lt.n(payload.term) > 0)}
+                st.setcell(ref.cell, Val(t, newt, aux))
                 return ok(st, NONE)
             if kind == "conc":
                 for pv in payload:
